@@ -387,7 +387,7 @@ def gen_graph(rng):
 
     def fixtype(t):
         # rdf:type with a non-IRI object is legal but rare
-        if t[1][1] == TYPE and t[2] is not None and t[2][0] != "I" and rng.random() < 0.9:
+        if t[1][1] == TYPE and t[2] is not None and t[2][0] != "I" and rng.random() < 0.5:
             return [t[0], preds[0], t[2]]
         return t
 
@@ -739,6 +739,12 @@ def inner_list_cell(graph):
     return any(t[1][1] == REST and t[2][0] == "B" and t[2][1] in firsts for t in graph)
 
 
+def type_iri_unsafe(graph):
+    """an rdf:type object that IS an IRI but does not end in a plain XML name after its last '/' or '#'
+    (compute_qname_strict still hands out a prefix:local for some of them, e.g. ns1:x) for http://e/(x))"""
+    return any(t[1][1] == TYPE and t[2][0] == "I" and type_object_unsafe([t]) for t in graph)
+
+
 def triggers(graph, fmt, base=None, bind=None):
     """Finding ids whose *input-side* trigger holds (see known_findings.d/C03.json).  Ordered."""
     out = []
@@ -755,9 +761,13 @@ def triggers(graph, fmt, base=None, bind=None):
                 if v == v and v not in (float("inf"), float("-inf")) and float("%e" % v) != v:
                     out.append("F15")
                     break
-    # F15d, F15e, F15f, F15h, F15o (Turtle family) and F15k, F15m (pretty-xml) were repaired in /repo
-    # (0b40a911, ec2790c6, c1984258, fdf8d16b, 2521fbb8, 83d416d7, d4c8e316): no trigger any more
+    # F15d, F15e, F15f, F15h, F15o (Turtle family) and F15m, the non-IRI half of F15k (pretty-xml) were repaired in
+    # /repo (0b40a911, ec2790c6, c1984258, fdf8d16b, 2521fbb8, d4c8e316, 83d416d7): no trigger any more
+    if fmt in TURTLE_FAMILY and any(t[0] == ["I", NIL] and t[1][1] in (FIRST, REST) for t in graph):
+        out.append("F15r")
     if fmt == "pretty-xml":
+        if type_iri_unsafe(graph):
+            out.append("F15k")
         if list_as_object(graph):
             out.append("F15l")
         if any(pfx == "" for pfx, _ in (bind or [])) and any(x[3] == RDFNS + "XMLLiteral" and "<" in x[1] for x in lits):
@@ -1205,7 +1215,8 @@ class TtlString(Suite):
 
 # ---------------------------------------------------------------- graph level: conformance only
 TRIGGER_NUM = {"F15": 1, "F15b": 2, "F15c": 3, "F15d": 4, "F15e": 5, "F15f": 6, "F15g": 7, "F15h": 8,
-               "F15i": 9, "F15j": 10, "F15k": 11, "F15l": 12, "F15m": 13, "F15n": 14, "F15o": 15, "F15p": 16}
+               "F15i": 9, "F15j": 10, "F15k": 11, "F15l": 12, "F15m": 13, "F15n": 14, "F15o": 15, "F15p": 16, "F15r": 17}
+FIXED_FINDINGS = {"F15b", "F15d", "F15e", "F15f", "F15h", "F15m", "F15o"}   # repaired in /repo
 BINDS = [None, None, [["ex", "http://e/"], ["ns", "http://e/ns#"]], [["", "http://e/"]], [["ex", "http://e/ns#"]]]
 BASES = [None, None, None, "http://e/", "http://e/", "http://other.org/"]
 
@@ -1222,8 +1233,7 @@ class RoundTrip(Suite):
     oeq = "rt_obs_eqb"
     spec = "rt_spec"
     kf = "rt_kf"
-    FIXED = {"F15b", "F15d", "F15e", "F15f", "F15h", "F15k", "F15m", "F15o"}
-    kf_ids = {v: k for k, v in TRIGGER_NUM.items() if k not in FIXED}
+    kf_ids = {v: k for k, v in TRIGGER_NUM.items() if k not in FIXED_FINDINGS}
     corr = "Graph.serialize / Graph.parse for nt, turtle, longturtle, n3, xml, pretty-xml, json-ld, hext (conformance, no model)"
     quick_n = 1600
     thorough_n = 16000
